@@ -122,10 +122,15 @@ def check(ctx):
     # every use of the recursive result is inside such a join (not returned alone)
     stray = [r for r in recs if not any(r in (j[2], j[3]) for j in joins)]
     # ---- R2 ------------------------------------------------------------------------------
-    rphis = [t for t in terms if t[0] == "phi" and any(j == t[2] for j in joins)]
+    rphis = [t for t in terms if t[0] == "phi" and any(j in (t[2], t[3]) for j in joins)]
     ctx.sites("C19.R2", len(rphis) + (0 if joins else 1), 1, "condition guarding the recursion")
     for t in rphis[:1]:
-        cond, other = t[1], t[3]
+        # the branch with the concatenation is the recursion; the test may be written for either branch (and may be a value kept in a
+        # local: then it reaches the rule as the decision term of that local)
+        if any(j == t[2] for j in joins):
+            cond, other, JOIN = t[1], t[3], t[2]
+        else:
+            cond, other, JOIN = ("un", "not", t[1]), t[2], t[3]
         # The recursion condition is evaluated as a boolean function of facts about the page - T truncated, EP raw page empty (it can
         # hold delete markers only), S start unset, LP oldest raw version >= start, and for a window-filtered copy of the page EF (empty;
         # EP => EF) and LF - with Python's short-circuit order, and compared with what the property needs:
@@ -184,6 +189,10 @@ def check(ctx):
                 return False
             if p[0] == "un" and p[1] == "not":
                 return not ev(p[2], a)
+            if p[0] in ("phi", "ifexp"):
+                return ev(p[2], a) if ev(p[1], a) else ev(p[3], a)
+            if p[0] == "const" and isinstance(p[1], bool):
+                return p[1]
             k = atom(p)
             if k is None:
                 unknown.append(ir.show(p, maxdepth=4))
@@ -233,7 +242,7 @@ def check(ctx):
                if not ({"unsafe", "empty"} & set(bad)) else bad.get("unsafe", bad.get("empty")))
         ctx.ob("C19.R2.window", f"{lv.qualname}|early stop at window start", "window" not in bad, lv.where(),
                "the listing continues at least while the oldest version of the page is still >= start (or start is unset)" if "window" not in bad else bad["window"])
-        same = other == t[2][2] or other == t[2][3]
+        same = other == JOIN[2] or other == JOIN[3]
         ctx.ob("C19.R2.else", f"{lv.qualname}|no recursion keeps the page", same and raw_page_of(other)[0] is not None, lv.where(),
                "without recursion the page's versions are the result" if same else "without recursion the result is not the page's versions")
     # ---- R3 ------------------------------------------------------------------------------
@@ -320,6 +329,15 @@ def check(ctx):
                 and c[0][2][1][0] == "attr" and c[0][2][1][2] == "get" and (t == c[0][2] or t == NONE):
             prop_ok = True
             get_call = c[0][2]
+    if not prop_ok:
+        # one `return` after an if / else that sets the value: the returned term is the decision phi(<download> is None ? <download> : ..)
+        for x in ir.walk(vs.ret()):
+            if x[0] == "phi" and x[1][0] == "cmp" and x[1][1] == "is" and x[1][3] == NONE and x[1][2][0] == "call" and x[1][2][1][0] == "attr" \
+                    and x[1][2][1][2] == "get" and x[2] in (x[1][2], NONE):
+                # .. and nothing is computed from the missing download on that path
+                used = [e_ for pc_, e_, _ in vs.effects if any(c_ == x[1] and pol_ for c_, pol_ in pc_) and any(y == x[1][2] for y in ir.walk(e_))]
+                if not used:
+                    prop_ok, get_call = True, x[1][2]
     ctx.ob("C19.R5.propagate", f"{vh.qualname}|None propagated", prop_ok, vh.where(),
            "get_versioned_results returns None when the download returns None" if prop_ok
            else "get_versioned_results does not return None when nothing was found (it would process None)")
